@@ -26,6 +26,9 @@ ASSUMPTIONS = [
     "empty keys are not generated (the statement quantifies over non-empty keys)",
     "reference construction vt/ref/bintrie.py",
 ]
+# thorough tier: the repository's own tests replayed under this run-time contract
+REPO_TESTS = {"files": ["tests/core/test_bin_trie.py", "tests/core/test_branches_utils.py"],
+              "contracts": ["binary_set_get"]}
 FLOORS = {"quick": {k: 1 for k in [
     "audits", "lookups", "set_new", "set_overwrite", "set_refused_key_is_prefix", "set_refused_key_is_extension",
     "delete_present", "delete_absent", "dsub_present", "dsub_absent", "old_roots_reread", "db_writes_checked",
